@@ -549,3 +549,36 @@ contract(
     writes_fresh=CUR_FRESH + EV_FRESH, raises=["IntegrityError"],
     exc_ensures={"IntegrityError": ["False"]},
 )
+
+
+# -- update_bucket: the SQL text is assembled from the fields supplied; verified per combination of supplied fields ------------------
+@spec
+def kept_or(new, supplied, old_value):
+    return new == (supplied if supplied is not None else old_value)
+
+
+contract(
+    S_ + ".update_bucket",
+    params={"self": "SqliteStorage", "bucket_id": "str", "type_id": "Optional[str]", "client": "Optional[str]", "hostname": "Optional[str]",
+            "name": "Optional[str]", "data": "Optional[Dict[str,JV]]"},
+    returns="Dict[str,JV]",
+    requires=["lazy_inv(self)"],
+    case_split=["type_id", "client", "hostname", "name", "data"],       # each Optional parameter: None / not None (32 cases)
+    ensures=[
+        "old(bucket_exists(self, bucket_id))",
+        # only the fields supplied change, and only in the addressed bucket row; no bucket appears or disappears; events untouched
+        "all(bk_live(self, r) == old(bk_live(self, r)) and bk_id(self, r) == old(bk_id(self, r))"
+        "    and bk_col(self, r, 'created') == old(bk_col(self, r, 'created'))"
+        "    and (not (bk_live(self, r) and bk_id(self, r) == bucket_id) or ("
+        "        bk_col(self, r, 'type') == (type_id if type_id is not None else old(bk_col(self, r, 'type')))"
+        "        and bk_col(self, r, 'client') == (client if client is not None else old(bk_col(self, r, 'client')))"
+        "        and bk_col(self, r, 'hostname') == (hostname if hostname is not None else old(bk_col(self, r, 'hostname')))"
+        "        and (name is None or bk_col(self, r, 'name') == name) and (name is not None or bk_col(self, r, 'name') == old(bk_col(self, r, 'name')))"
+        "        and bk_col(self, r, 'datastr') == (json.dumps(data) if data is not None else old(bk_col(self, r, 'datastr')))))"
+        "    and ((bk_live(self, r) and bk_id(self, r) == bucket_id) or bk_row(self, r) == old(bk_row(self, r)))"
+        "    for r in bucket_rowids(self))",
+        EVENTS_SAME, MAXES_SAME, "pending(self) == 0 and lazy_inv(self)",
+    ],
+    exc_ensures={"ValueError": [BUCKETS_SAME, EVENTS_SAME]},
+    modifies=DBMOD, writes_fresh=CUR_FRESH + ["Dict.map:JV"], raises=["ValueError"],
+)
